@@ -265,6 +265,26 @@ def main(rec):
     # statement tables, class-level counters) is seen by the second run of the very same input
     for s_ in victims:
         hist.append([s_, s_])
+    # the same library under other settings that change helper text and layout (C++ standard, helper markers, where
+    # Python helpers are written): each order of the pair, compared with the member alone
+    twins = []
+    def _uses_helpers(s_):
+        t_ = "".join(v_ for k_, v_ in (s_.get("files") or {}).items() if k_.endswith(".yaml"))
+        return "std::vector" in t_ or "allocatable" in t_ or "dimension(" in t_ or "std::string" in t_
+    tw_src = [s_ for s_ in gspecs if _uses_helpers(s_)]
+    for s_ in tw_src[: (len(tw_src) if thorough else 10)]:
+        yk = next((k_ for k_ in (s_.get("files") or {}) if k_.endswith(".yaml")), None)
+        if not yk:
+            continue
+        d_ = workloads.load_yaml(s_["files"][yk])
+        if not isinstance(d_, dict) or d_.get("language", "c++") != "c++":
+            continue
+        d_["options"] = dict(d_.get("options") or {}, CXX_standard=2003, literalinclude2=True, PY_write_helper_in_util=True)
+        t_ = dict(s_, name=s_["name"] + "~std2003", files=dict(s_["files"], **{yk: workloads.dump_yaml(d_)}))
+        twins.append(t_)
+        hist.append([s_, t_])
+        hist.append([t_, s_])
+    allspecs = list(allspecs) + twins
     alone = {}
     names = sorted({h[-1]["name"] for h in hist})
     byname = {s["name"]: s for s in allspecs}
